@@ -239,6 +239,85 @@ Fixpoint run_stream (fuel : nat) (c : scfg) (o : oracles) (s : session) (w : str
 Definition run_bytes (c : scfg) (o : oracles) (w : str) : list item * list entry * session :=
   run_stream (length w + 2) c o init w.
 
+(** ** The connection as the session's reader sees it
+
+    The client's bytes arrive in chunks; between two chunks the client pauses for longer than the
+    configured timeout, so that exactly one read fails with a timeout there; after the last
+    chunk the connection ends in one of three ways. What bufio / textproto make of this
+    (bufio.Reader.ReadLine hands out a partial line it already holds together with the pending
+    error and *drops* that error; DotReader returns the error as soon as its buffer is empty):
+    - line mode, a complete line is available: it is consumed, nothing else happens;
+    - line mode, bytes without LF, then a pause or the end: they are handed out as a line and
+      the pending timeout is absorbed (the next read continues in the next chunk);
+    - line mode, nothing buffered: a pause is [Idle], the end is [Eof] / [Idle] / [ConnErr];
+    - DATA mode: a block terminated inside the current chunk is read; otherwise a pause (or a
+      silent end) is [PIdle], EOF or another error is [PEof]. *)
+Inductive fin_kind := FEof | FIdle | FErr.
+Record reader := { cur : str; later : list str; fin : fin_kind }.
+Definition end_item (f : fin_kind) : item :=
+  match f with FEof => Eof | FIdle => Idle | FErr => ConnErr end.
+Definition end_payload (f : fin_kind) : payload := match f with FIdle => PIdle | _ => PEof end.
+Definition spent (r : reader) : reader := {| cur := []; later := []; fin := fin r |}.
+
+Definition next_item_net (o : oracles) (s : session) (r : reader) : item * reader :=
+  match st s with
+  | DATA =>
+      match dec BeginLine (cur r) with
+      | Some (body, rest) => (block_item o body, {| cur := rest; later := later r; fin := fin r |})
+      | None =>
+          match later r with
+          | [] => (B (end_payload (fin r)), spent r)
+          | _ :: _ => (B PIdle, spent r)
+          end
+      end
+  | _ =>
+      match cur r with
+      | [] =>
+          match later r with
+          | [] => (end_item (fin r), spent r)
+          | _ :: _ => (Idle, spent r)
+          end
+      | _ :: _ =>
+          match split_lf (cur r) with
+          | Some (l, rest) =>
+              (L (classify o (drop_last_cr l)), {| cur := rest; later := later r; fin := fin r |})
+          | None =>
+              (L (classify o (cur r)),
+               match later r with
+               | [] => spent r
+               | w' :: ws => {| cur := w'; later := ws; fin := fin r |}
+               end)
+          end
+      end
+  end.
+
+Fixpoint run_reader (fuel : nat) (c : scfg) (o : oracles) (s : session) (r : reader)
+  : list item * list entry * session :=
+  match fuel with
+  | O => ([], [], s)
+  | S f =>
+      match st s with
+      | QUIT => ([], [], s)
+      | _ =>
+          let '(it, r') := next_item_net o s r in
+          match step c s it with
+          | Ok s' rp d =>
+              let '(its, tr, sf) := run_reader f c o s' r' in
+              (it :: its, (it, rp, d) :: tr, sf)
+          | _ => ([], [], s)
+          end
+      end
+  end.
+
+Definition total_len (ws : list str) : nat := fold_right (fun w n => (length w + n)%nat) 0%nat ws.
+(** Fuel: every item but the last consumes a byte or a chunk boundary. *)
+Definition run_net (c : scfg) (o : oracles) (chunks : list str) (f : fin_kind)
+  : list item * list entry * session :=
+  match chunks with
+  | [] => run_reader 2 c o init {| cur := []; later := []; fin := f |}
+  | w :: ws => run_reader (total_len chunks + length chunks + 2) c o init {| cur := w; later := ws; fin := f |}
+  end.
+
 (** Flat reply stream as a client sees it. *)
 Definition replies_of (tr : list entry) : list rline := concat (map (fun e => snd (fst e)) tr).
 
@@ -257,7 +336,7 @@ Fixpoint attach (items : list item) (r : list rline) : list (item * list rline) 
   | it :: its =>
       match it with
       | L _ => let '(g, rest) := take_group r in (it, g) :: attach its rest
-      | B (PBlock _ _ _) =>
+      | B (PBlock _ _ _) | B PIdle | Idle | ConnErr =>
           match r with
           | x :: rest => (it, [x]) :: attach its rest
           | [] => (it, []) :: attach its []
